@@ -83,6 +83,70 @@ func parseBool(b byte) (bool, error) {
 	return b != 0, nil
 }
 
+// universalTagOf returns the universal tag number an untagged member of the given Go type is encoded with.
+func universalTagOf(t reflect.Type, params fieldParameters) (uint64, bool) {
+	for t.Kind() == reflect.Ptr {
+		t = t.Elem()
+	}
+	switch t {
+	case BitStringType:
+		return TagBitString, true
+	case OctetStringType:
+		return TagOctetString, true
+	case EnumeratedType:
+		return TagEnumerated, true
+	case NullType:
+		return TagNull, true
+	case ObjectIdentifierType:
+		return TagOID, true
+	}
+	switch t.Kind() {
+	case reflect.Bool:
+		return TagBoolean, true
+	case reflect.Int, reflect.Int32, reflect.Int64:
+		return TagInteger, true
+	case reflect.String:
+		switch {
+		case params.stringType != 0:
+			return uint64(params.stringType), true
+		case t == UTF8StringType:
+			return TagUTF8String, true
+		case t == IA5StringType:
+			return TagIA5String, true
+		case t == GraphicStringType:
+			return TagGraphicString, true
+		}
+	case reflect.Slice:
+		if params.set {
+			return TagSet, true
+		}
+		return TagSequence, true
+	case reflect.Struct:
+		if t.NumField() > 0 {
+			switch t.Field(0).Name {
+			case "Value", "List":
+				return universalTagOf(t.Field(0).Type, params)
+			case "Present":
+				return 0, false
+			}
+		}
+		if params.set {
+			return TagSet, true
+		}
+		return TagSequence, true
+	}
+	return 0, false
+}
+
+// memberMatches reports whether an element with the given header is the encoding of a struct member.
+func memberMatches(t reflect.Type, params fieldParameters, tal tagAndLen) bool {
+	if params.tagNumber != nil {
+		return *params.tagNumber == tal.tagNumber
+	}
+	tag, ok := universalTagOf(t, params)
+	return ok && tal.class == ClassUniversal && tag == tal.tagNumber
+}
+
 // ParseField is the main parsing function. Given a byte slice containing type value,
 // it will try to parse a suitable ASN.1 value out and store it
 // in the given Value. TODO : ObjectIdenfier
@@ -246,7 +310,7 @@ func ParseField(v reflect.Value, bytes []byte, params fieldParameters) error {
 					if params.openType {
 						return fmt.Errorf("OpenType is not implemented")
 					}
-					if *structParams[current].tagNumber == talNow.tagNumber {
+					if memberMatches(structType.Field(current).Type, structParams[current], talNow) {
 						if err = ParseField(val.Field(current), bytes[offset:next], structParams[current]); err != nil {
 							return err
 						}
@@ -276,7 +340,7 @@ func ParseField(v reflect.Value, bytes []byte, params fieldParameters) error {
 					if params.openType {
 						return fmt.Errorf("OpenType is not implemented")
 					}
-					if *structParams[current].tagNumber == talNow.tagNumber {
+					if memberMatches(structType.Field(current).Type, structParams[current], talNow) {
 						if parse_err1 := ParseField(val.Field(current), bytes[offset:next], structParams[current]); parse_err1 != nil {
 							return parse_err1
 						}
